@@ -72,6 +72,7 @@ def run(chk):
                        derived="shape %r" % (x.shape,), loc=r.fi.loc())
             else:
                 chk.ob("R-LIN", "%s.%s[time-axis]" % (c, nm), "2-D (periods x time)", False, derived="shape %r" % (x.shape if x else None,),
+                       inconclusive=(x is None or x.shape is None),
                        loc=r.fi.loc())
     cab = analyse(chk, "eqsig.sdof.compute_a_and_b", lambda I, st, fi: dict(xi=xi_av(), w=periods_av(True), dt=pos_scalar("dt", DT)),
                   atoms=(R, DT, T))
